@@ -8,7 +8,7 @@ import TrompModel.Model.CxxBase
 import TrompModel.Model.Range
 namespace Tromp.Cxx
 
-/-- `impl::is_range_checker::operator()` — translated from include/trompeloeil/matcher/range.hpp:153 -/
+/-- `impl::is_range_checker::operator()` — translated from include/trompeloeil/matcher/range.hpp:154 -/
 def is_range {α μ : Type} (accepts : μ → α → Bool) (r : List α) (cs : List μ) : Bool := Id.run do
   return Range.equal4 (fun (cv : μ) (rv : α) => accepts cv rv) r cs
 
